@@ -54,14 +54,23 @@ class Exec(ExecBase):
         self.outcomes = []
 
 
-def dir_state(scratch):
+def dir_state(scratch, own_names=None):
+    """(name, content hash) of every file below the scratch directory. Files whose names the harness did not
+    choose itself (e.g. the randomly named temporary file of an implementation that writes and then renames,
+    left behind by an injected interrupt) enter without their name, so that the event log stays a function of
+    the seed alone."""
     out = []
     for root, dirs, files in os.walk(scratch):
         dirs.sort()
         for n in sorted(files):
             p = os.path.join(root, n)
-            with open(p, "rb") as f:
-                out.append((os.path.relpath(p, scratch), short_hash(f.read())))
+            try:
+                with open(p, "rb") as f:
+                    data = f.read()
+            except OSError:
+                continue
+            rel = os.path.relpath(p, scratch)
+            out.append((rel if (own_names is None or rel in own_names) else "<not named by the script>", short_hash(data)))
     return tuple(sorted(out))
 
 
@@ -81,6 +90,11 @@ def execute(spec, count_lines=False):
         wl = sess.wl
         known = {}  # file name -> expected bytes, or None when nothing is claimed (fault inside save)
         events = []
+        own_names = set(GOOD_NAMES) | set(BAD_NAMES) | {world["worklist"]["file"], "autosave-twin.gwl"}
+        for o in spec["ops"]:
+            for b in [o] + list(o.get("body") or []):
+                if "file" in b:
+                    own_names.add(b["file"])
 
         def path_of(name, kind):
             if kind in ("rel", "relPath"):
@@ -302,7 +316,7 @@ def execute(spec, count_lines=False):
                     res.outcomes.append(out.exc_type if not out.ok else "ok")
                     check_frame(i, op, set())
                 check_str(i, op)
-                events.append((i, k, res.outcomes[-1] if res.outcomes else None, len(wl), dir_state(scratch)))
+                events.append((i, k, res.outcomes[-1] if res.outcomes else None, len(wl), dir_state(scratch, own_names)))
         finally:
             pass
         res.events = events
